@@ -156,6 +156,7 @@ namespace mfuse
         void EmitCommandScript(const rawchar_t* commandName, sval_t parameter_list, sourceLocation_t sourceLoc);
         void EmitCommandScriptRet(const rawchar_t* commandName, sval_t parameter_list, sourceLocation_t sourceLoc);
         void EmitConstArray(sval_t lhs, sval_t rhs, sourceLocation_t sourceLoc);
+        void CheckOperandCount(uint32_t iCount, uint32_t iMaxCount, sourceLocation_t sourceLoc);
         void EmitConstArrayOpcode(uint32_t iCount, sourceLocation_t sourceLoc);
         void EmitContinue(sourceLocation_t sourceLoc);
         void EmitDoWhileJump(sval_t while_stmt, sval_t while_expr, sourceLocation_t sourceLoc);
